@@ -81,4 +81,46 @@ theorem C14_authenticate_exactly_once (cfg : Cfg) (op : Operation) (f : RequestF
     rw [← hq]
     exact assignOne_no_auth q fld
 
+
+/-! ## `from_env` builds the FIRST declared scheme: the strategies keep the order of declaration -/
+
+/-- the strategy one security requirement yields (none for a scheme kind the generator does not support) -/
+def strategyOf (spec : Spec) : List Text → Option AuthStrategy
+  | [] => some .noAuth
+  | schemeName :: _ =>
+    match spec.schemes.find? (fun e => e.1 == schemeName) with
+    | some (_, .apiKey loc name) => some (.token schemeName [{ name := name, loc := keyLocation loc name }])
+    | some (_, .http _) => some (.token schemeName [{ name := schemeName, loc := .bearer }])
+    | some (_, .oauth2 (some (a, t, r, scopes))) => some (.oauth2 a t (r.getD t) scopes)
+    | _ => none
+
+/-- **declaration order is kept**: whenever the security requirements are extracted, the strategies are those
+of the supported requirements, in the order in which the document declares them - nothing is reordered, merged
+or dropped. In particular the first strategy, the one `from_env` builds, belongs to the first supported
+requirement of the document. -/
+theorem C14_strategies_in_declaration_order (spec : Spec) (reqs : List (List Text)) (l : List AuthStrategy)
+    (h : extractSecurity spec reqs = .ok l) : l = reqs.filterMap (strategyOf spec) := by
+  induction reqs generalizing l with
+  | nil => simp only [extractSecurity, Except.ok.injEq] at h; subst h; rfl
+  | cons req rest ih =>
+    simp only [extractSecurity] at h
+    cases ht : extractSecurity spec rest with
+    | error e => rw [ht] at h; simp at h
+    | ok tail =>
+      rw [ht] at h
+      have iht := ih tail ht
+      cases req with
+      | nil =>
+        simp only [Except.ok.injEq] at h
+        subst h
+        simp [List.filterMap_cons, strategyOf, iht]
+      | cons schemeName more =>
+        simp only at h
+        simp only [List.filterMap_cons, strategyOf]
+        split at h <;> simp_all
+
+theorem C14_first_strategy (spec : Spec) (reqs : List (List Text)) (l : List AuthStrategy)
+    (h : extractSecurity spec reqs = .ok l) : l.head? = (reqs.filterMap (strategyOf spec)).head? := by
+  rw [C14_strategies_in_declaration_order spec reqs l h]
+
 end Ln
